@@ -226,7 +226,7 @@ def gen_tables():
 
 # =========================================================================== generator
 EAPIS = [None, 0, 1, 2, 3, 4, 5, 6, 7, 8, 9]
-KINDS = {"MalformedAtom": "MalformedAtom", "IndexError": "IndexError"}
+KINDS = {"MalformedAtom": "MalformedAtom"}
 
 # PMS feature matrix used by the GENERATOR only (which features a 'valid' atom may use)
 def feats(e):
@@ -458,22 +458,6 @@ def cls_slot_leading_plus(e, s, res):
     return (not isinstance(res, Err)) and any((x or "").startswith("+") for x in (res[8], res[9]))
 
 
-def left_part(s):
-    if "[" in s:
-        pre = s[:s.index("[")]
-        i = pre.find(":")
-    else:
-        pre = s
-        i = s.find(":", 0, -1)
-    return pre if i == -1 else pre[:i]
-
-
-def cls_index_error(e, s, res):
-    """rejected with an uncaught IndexError instead of MalformedAtom: nothing (or only a blocker and/or a
-    bare '<' / '>') is left of the slot / USE part"""
-    return res == Err("IndexError") and re.fullmatch(r"(!!?)?[<>]?", left_part(s)) is not None
-
-
 def cls_unicode_digit(e, s, res):
     """accepted although the version/revision contains a non-ASCII Unicode digit (\\d and str.isdigit)"""
     return not isinstance(res, Err) and any(ord(c) > 127 and c.isdigit() for c in s)
@@ -602,9 +586,7 @@ def main(chk: Check):
                                 else "rejected a string the PMS grammar accepts") + " (Spec_C03.pms_atom_b)",
                        "input": {"eapi": e, "negate_vers": neg, "text": s}, "implementation": results[i]})
     for i, ((_st, e, neg, s), res) in enumerate(zip(cases, results)):
-        if isinstance(res, Err) and res.kind != "MalformedAtom":
-            if cls_index_error(e, s, res) and chk.known_finding("index-error", {"eapi": e, "text": s}):
-                continue
+        if isinstance(res, Err) and res.kind != "MalformedAtom":   # (fixed in /repo 3aa9a5c: IndexError)
             prop_fail = True
             chk.violation("property", {"what": f"rejected with {res.kind} instead of MalformedAtom",
                                        "input": {"eapi": e, "negate_vers": neg, "text": s}})
